@@ -29,7 +29,7 @@ top of it): `C05_expansion_fields_partial` excludes exactly those histories (`se
 refutes the full statement.
 
 PROPERTY THEOREMS (audited by ./check): C05_pull_refines, C05_pull_in_order, C05_store_of_value, C05_running_total,
-C05_rows_in_range, C05_rows_cover, C05_profile_depth, C05_profile_table, C05_value_exact, C05_value_within_one,
+C05_rows_in_range, C05_rows_cover, C05_profile_depth, C05_profile_table, C05_seed_exact, C05_value_exact, C05_value_within_one,
 C05_expansion_values, C05_expansion_fields_partial, C05_expansion_property_partial, C05_KF2_witness, C05_expansion_off,
 C05_untouched, C05_on_minus_expanded, C05_F07_witness_fixed
 -/
@@ -184,6 +184,27 @@ theorem C05_rows_cover :
 /-- **side conditions of the refinement, checked against the regenerated profile**: every component is at most 32 bits
 wide (`Pull` returns a uint32), and the accumulating components that feed one destination all have the same width. -/
 theorem C05_profile_table : Fit.ExpandSpec.tableOK profile = true := by decide +kernel
+
+/-- **a wire value seeds the running total "converted exactly"**: for every component row of the profile, when the
+specification takes `T` as the total that a wire value `v` of the destination seeds (`ExpandSpec.seed`, i.e.
+`((v / dScale − dOffset) + cOffset) × cScale` is the whole number `T`), the physical value of `T` is exactly `v`:
+`((T / cScale − cOffset) + dOffset) × dScale = v`. (Where that product is not a whole number the specification is
+undetermined: the property does not say which reading the counter had.) -/
+theorem C05_seed_exact (r) (hr : r ∈ rows) (v T : Nat) (hv : v < 2 ^ 32)
+    (hseed : Fit.ExpandSpec.seed v r.2.1 r.2.2.1 r.2.2.2.1 r.2.2.2.2.1 = some T) :
+    exactValue T r.2.1 r.2.2.1 r.2.2.2.1 r.2.2.2.2.1 = some v := by
+  have hne : ∀ r ∈ rows, (Q.ofF64 r.2.1).any (fun q => q.num != 0) = true := by decide +kernel
+  have h := hne r hr
+  cases hq : Q.ofF64 r.2.1 with
+  | none => rw [hq] at h; cases h
+  | some q =>
+    rw [hq] at h
+    exact seed_inverse v _ _ _ _ T hv hseed ⟨q, hq, by simpa using h⟩
+
+/-- non-vacuity: record.distance 100000 (1/100 m) seeds the compressed distance counter (1/16 m) with 16000; 100001 does
+not convert to a whole number of 1/16 m -/
+example : Fit.ExpandSpec.seed 100000 0x4030000000000000 0 0x4059000000000000 0 = some 16000 ∧
+    Fit.ExpandSpec.seed 100001 0x4030000000000000 0 0x4059000000000000 0 = none := by decide +kernel
 
 /-- what C05 asks of the arithmetic `cv` of one component: for every component row of the profile and every slice or
 running total `T < 2^32`, the exact physical value whenever that is an integer that fits a uint32, and a value within one
